@@ -134,7 +134,7 @@ func (c *Client) Get(ctx context.Context, key client.ObjectKey, obj client.Objec
 	if fault == "dead" {
 		return errDead
 	}
-	if fault == "before" || fault == "after" {
+	if fault != "" {
 		c.emit(p, "Get", k, false, errInjected, Proj{}, Proj{}, nil)
 		return errInjected
 	}
@@ -150,6 +150,9 @@ func (c *Client) Get(ctx context.Context, key client.ObjectKey, obj client.Objec
 	c.emit(p, "Get", k, false, gerr, c.proj(m), c.proj(m), map[string]any{"cached": cached})
 	if gerr != nil {
 		return gerr
+	}
+	if p != nil && k == p.Target && p.Snapshot == nil {
+		p.Snapshot = deepCopyMap(m)
 	}
 	return fromMap(m, obj, true)
 }
@@ -229,6 +232,17 @@ func (c *Client) write(ctx context.Context, ev string, obj client.Object, dry bo
 	p, fault := c.sim.gate(ctx, callInfo{verb: ev, key: k, role: c.role, dry: dry})
 	if fault == "dead" {
 		return errDead
+	}
+	if fault == "conflict" {
+		// the server rejects the write: somebody else modified the object since it was read
+		pr := c.proj(st.Snapshot(k))
+		if args == nil {
+			args = map[string]any{}
+		}
+		args["lost"] = false
+		cerr := conflict(k, "the object has been modified; please apply your changes to the latest version and try again")
+		c.emit(p, ev, k, dry, cerr, pr, pr, args)
+		return cerr
 	}
 	if fault == "before" {
 		pr := c.proj(st.Snapshot(k))
